@@ -1366,6 +1366,118 @@ def run_ode_life(case, ctx):
 
 
 # ---------------------------------------------------------------------------------------------------------------
+# two legs with an adaptive leg B: configuration A for a few steps, then the user switches to BS or adaptive IAS15
+
+@st.composite
+def two_leg_adaptive_case(draw, tier="quick"):
+    famA = draw(st.sampled_from(FAM_WEIGHT))
+    cfgA = draw(whfast_cfg_uniform_coords() if famA == "whfast" else fam_cfg(famA))
+    regime = draw(st.sampled_from([r for r in FAM_REGIMES[famA] if r in ("R2", "FB")] or ["R2"]))
+    famB = draw(st.sampled_from(["bs", "bs", "ias15"]))
+    d = {"regime": regime, "cfgA": cfgA, "familyB": famB, "system": draw(regime_system(regime, 4)),
+         "n1": draw(st.integers(1, 6)), "backward": draw(st.sampled_from([False, False, True])),
+         "norb": draw(st.sampled_from([2, 4])), "dt_frac": draw(st.sampled_from([0.001, 0.01, 0.05]))}
+    if famB == "ias15":
+        d["mode"] = draw(st.sampled_from([0, 1, 2, 3]))
+    else:
+        d["eps"] = draw(st.sampled_from([1e-8, 1e-10]))
+    return d
+
+
+def run_two_leg_adaptive(case, ctx):
+    """Leg 1: n1 steps of P/32 with configuration A, synchronize, documented switch (switch_to) to BS / adaptive
+    IAS15.  The synchronized state is the initial condition of the reference; leg 2 is held to the accuracy class of
+    the 'adaptive' sub (IAS15 default epsilon: 1e-12*H*sqrt(periods); BS: 1e3*eps*periods) and must not get worse
+    when the tolerance is tightened."""
+    import warnings
+    from ..oracles import c01_ref
+    warnings.simplefilter("ignore")
+    cfgA = case["cfgA"]
+    fam = case["familyB"]
+    sysd = case["system"]
+    sgn = -1.0 if case["backward"] else 1.0
+    dtA = snap(sysd["P_min"] / 32.0)
+    H = hierarchy(sysd)
+    what = "%s%s after %d steps of %s %s, %s%s" % (fam, (" mode=%d" % case["mode"]) if fam == "ias15" else "", case["n1"],
+                                                  cfgA["family"], short(cfgA), case["regime"],
+                                                  " backward" if case["backward"] else "")
+
+    class Collapse(Exception):
+        pass
+
+    def run(eps, ref=None):
+        if fam == "ias15":
+            cfgB = {"integrator": "ias15", "family": "ias15", "set": [["ri_ias15.epsilon", eps], ["ri_ias15.adaptive_mode", case["mode"]]]}
+        else:
+            cfgB = {"integrator": "bs", "family": "bs", "set": [["ri_bs.eps_rel", eps], ["ri_bs.eps_abs", eps]]}
+        sim = setup(sysd, cfgA)
+        sim.dt = sgn * dtA
+        try:
+            sim.steps(case["n1"])
+            sim.synchronize()
+            switch_to(sim, cfgB)
+        except RuntimeError as ex:
+            raise Violation("%s: the library reports an error on valid input: %s" % (what, ex))
+        t1 = sim.t
+        T = t1 + sgn * snap(case["norb"] * sysd["P_min"])
+        if ref is None:
+            mid = {"G": sysd["G"], "particles": [{"m": q.m, "x": q.x, "y": q.y, "z": q.z, "vx": q.vx, "vy": q.vy, "vz": q.vz}
+                                                 for q in [sim.particles[j] for j in range(sim.N)]]}
+            ref = c01_ref.reference(ref_spec(mid, {"t0": t1}), [T])[0]
+        sim.dt = sgn * case["dt_frac"] * sysd["P_min"]
+        count = [0]
+
+        def hb(_):
+            count[0] += 1
+            if count[0] > STEP_CAP:
+                sim.stop()
+        sim.heartbeat = hb
+        try:
+            sim.integrate(T)
+        except RuntimeError as ex:
+            raise Violation("%s eps=%g: the integrator reports an error on valid input: %s" % (what, eps, ex))
+        if count[0] > STEP_CAP:
+            raise Collapse()
+        if sim.t != T:
+            raise Violation("%s: integrate(%r) returned at t=%r" % (what, T, sim.t))
+        E, _ = state_error(sim, ref)
+        return E, sim.steps_done, ref
+
+    loose, tight = (1e-8, 1e-9) if fam == "ias15" else (case["eps"], case["eps"] / 100.0)
+    try:
+        El, nl, ref = run(loose)
+        Et, nt, _ = run(tight, ref)       # leg 1 does not depend on the tolerance of leg 2: same synchronized state
+    except Collapse:
+        ctx.cls("step_collapse:%s" % fam)
+        return
+    if fam == "ias15":
+        bound = IAS15_CLASS * H * math.sqrt(case["norb"])
+        ctx.stat_max("ias15_error/class_bound", Et / bound)
+        if not Et <= bound:
+            raise Violation("%s: error %.3e with the default epsilon exceeds the advertised accuracy class %.3e"
+                            % (what, Et, bound), steps=nt, H=H)
+    else:
+        for e_, E_, n_ in ((loose, El, nl), (tight, Et, nt)):
+            bound = FLOOR * H + BS_K * e_ * case["norb"]
+            ctx.stat_max("bs_error/class_bound", E_ / bound)
+            if not E_ <= bound:
+                raise Violation("%s: error %.3e with eps=%g exceeds the advertised accuracy class %.3e"
+                                % (what, E_, e_, bound), steps=n_, H=H)
+    fl = max(FLOOR, KR * EPS * H * math.sqrt(8.0 * max(nl, nt)))
+    if tight >= 1e-10 and not Et <= 2 * El + fl:
+        raise Violation("%s: tightening the tolerance from %g to %g increases the error from %.3e to %.3e"
+                        % (what, loose, tight, El, Et), H=H)
+    ctx.cls("B:" + fam)
+    ctx.cls("A:" + cfgA["family"])
+    if cfgA["family"] == "whfast":
+        ctx.cls("A:coord:" + cfg_get(cfgA, "ri_whfast.coordinates"))
+    if case["backward"]:
+        ctx.cls("backward")
+    if moved(sysd, ref) > 1e-3:
+        ctx.nontrivial()
+
+
+# ---------------------------------------------------------------------------------------------------------------
 
 def subs(tier):
     return [
@@ -1373,6 +1485,8 @@ def subs(tier):
         Sub("lattice", run_order, cases=lattice_cases, quick=0, thorough=0, shards_quick=16, shards_thorough=16),
         Sub("two_leg", run_two_leg, strategy=two_leg_case(tier), quick=144, thorough=6400, shards_quick=8,
             shards_thorough=16),
+        Sub("two_leg_adaptive", run_two_leg_adaptive, strategy=two_leg_adaptive_case(tier), quick=96, thorough=4800,
+            shards_quick=8, shards_thorough=16),
         Sub("adaptive", run_adaptive, strategy=adaptive_case(tier), quick=192, thorough=6400, shards_quick=8, shards_thorough=16),
         Sub("ode", run_ode, strategy=ode_case(tier), quick=48, thorough=1600, shards_quick=8, shards_thorough=16),
         Sub("ode_life", run_ode_life, strategy=ode_life_case(tier), quick=64, thorough=2400, shards_quick=8,
